@@ -4,40 +4,40 @@ namespace HtmlVerif
 
 /-! ### decoding what the per-character maps produce -/
 
-theorem decodeRefs_cons_ne (c : Char) (cs : Str) (h : c ≠ '&') : decodeRefs (c :: cs) = c :: decodeRefs cs := by
-  rw [decodeRefs]; simp [h]
+theorem decodeRefs_cons_ne (c : Char) (cs : Str) (h : c ≠ '&') : decodeCharRefs (c :: cs) = c :: decodeCharRefs cs := by
+  rw [decodeCharRefs]; simp [h]
 
-theorem decodeRefs_amp (rest : Str) : decodeRefs ('&' :: 'a' :: 'm' :: 'p' :: ';' :: rest) = '&' :: decodeRefs rest := by
-  rw [decodeRefs]; simp [matchRef, matchNamed, namedRefs, List.findSome?, List.isPrefixOf]
+theorem decodeRefs_amp (rest : Str) : decodeCharRefs ('&' :: 'a' :: 'm' :: 'p' :: ';' :: rest) = '&' :: decodeCharRefs rest := by
+  rw [decodeCharRefs]; simp [crMatchRef, crMatchNamed, crNamedRefs, List.findSome?, List.isPrefixOf]
 
-theorem decodeRefs_lt (rest : Str) : decodeRefs ('&' :: 'l' :: 't' :: ';' :: rest) = '<' :: decodeRefs rest := by
-  rw [decodeRefs]; simp [matchRef, matchNamed, namedRefs, List.findSome?, List.isPrefixOf]
+theorem decodeRefs_lt (rest : Str) : decodeCharRefs ('&' :: 'l' :: 't' :: ';' :: rest) = '<' :: decodeCharRefs rest := by
+  rw [decodeCharRefs]; simp [crMatchRef, crMatchNamed, crNamedRefs, List.findSome?, List.isPrefixOf]
 
-theorem decodeRefs_gt (rest : Str) : decodeRefs ('&' :: 'g' :: 't' :: ';' :: rest) = '>' :: decodeRefs rest := by
-  rw [decodeRefs]; simp [matchRef, matchNamed, namedRefs, List.findSome?, List.isPrefixOf]
+theorem decodeRefs_gt (rest : Str) : decodeCharRefs ('&' :: 'g' :: 't' :: ';' :: rest) = '>' :: decodeCharRefs rest := by
+  rw [decodeCharRefs]; simp [crMatchRef, crMatchNamed, crNamedRefs, List.findSome?, List.isPrefixOf]
 
 theorem decodeRefs_quot (rest : Str) :
-    decodeRefs ('&' :: 'q' :: 'u' :: 'o' :: 't' :: ';' :: rest) = '"' :: decodeRefs rest := by
-  rw [decodeRefs]; simp [matchRef, matchNamed, namedRefs, List.findSome?, List.isPrefixOf]
+    decodeCharRefs ('&' :: 'q' :: 'u' :: 'o' :: 't' :: ';' :: rest) = '"' :: decodeCharRefs rest := by
+  rw [decodeCharRefs]; simp [crMatchRef, crMatchNamed, crNamedRefs, List.findSome?, List.isPrefixOf]
 
 theorem decodeRefs_apos (rest : Str) :
-    decodeRefs ('&' :: 'a' :: 'p' :: 'o' :: 's' :: ';' :: rest) = '\'' :: decodeRefs rest := by
-  rw [decodeRefs]; simp [matchRef, matchNamed, namedRefs, List.findSome?, List.isPrefixOf]
+    decodeCharRefs ('&' :: 'a' :: 'p' :: 'o' :: 's' :: ';' :: rest) = '\'' :: decodeCharRefs rest := by
+  rw [decodeCharRefs]; simp [crMatchRef, crMatchNamed, crNamedRefs, List.findSome?, List.isPrefixOf]
 
 theorem decodeRefs_cr (rest : Str) :
-    decodeRefs ('&' :: '#' :: '1' :: '3' :: ';' :: rest) = '\r' :: decodeRefs rest := by
-  rw [decodeRefs]
-  simp [matchRef, matchNamed, namedRefs, List.findSome?, List.isPrefixOf, matchDecimal, List.takeWhile,
-    digitsVal, Char.isDigit]
+    decodeCharRefs ('&' :: '#' :: '1' :: '3' :: ';' :: rest) = '\r' :: decodeCharRefs rest := by
+  rw [decodeCharRefs]
+  simp [crMatchRef, crMatchNamed, crNamedRefs, List.findSome?, List.isPrefixOf, crMatchDecimal, List.takeWhile,
+    crDigitsVal, Char.isDigit]
 
 theorem decodeRefs_lf (rest : Str) :
-    decodeRefs ('&' :: '#' :: '1' :: '0' :: ';' :: rest) = '\n' :: decodeRefs rest := by
-  rw [decodeRefs]
-  simp [matchRef, matchNamed, namedRefs, List.findSome?, List.isPrefixOf, matchDecimal, List.takeWhile,
-    digitsVal, Char.isDigit]
+    decodeCharRefs ('&' :: '#' :: '1' :: '0' :: ';' :: rest) = '\n' :: decodeCharRefs rest := by
+  rw [decodeCharRefs]
+  simp [crMatchRef, crMatchNamed, crNamedRefs, List.findSome?, List.isPrefixOf, crMatchDecimal, List.takeWhile,
+    crDigitsVal, Char.isDigit]
 
 theorem decode_escTextChar (c : Char) (rest : Str) :
-    decodeRefs (escTextChar c ++ rest) = c :: decodeRefs rest := by
+    decodeCharRefs (escTextChar c ++ rest) = c :: decodeCharRefs rest := by
   unfold escTextChar
   by_cases h1 : c = '&'
   · subst h1; simp [decodeRefs_amp]
@@ -48,13 +48,13 @@ theorem decode_escTextChar (c : Char) (rest : Str) :
   simp [h1, h2, h3, decodeRefs_cons_ne c _ h1]
 
 /-- escaped text decodes to exactly the original characters -/
-theorem decode_escText (s : Str) : decodeRefs (s.flatMap escTextChar) = s := by
+theorem decode_escText (s : Str) : decodeCharRefs (s.flatMap escTextChar) = s := by
   induction s with
-  | nil => simp [decodeRefs]
+  | nil => simp [decodeCharRefs]
   | cons c cs ih => simp only [List.flatMap_cons, decode_escTextChar, ih]
 
 theorem decode_escAttrChar (c : Char) (rest : Str) :
-    decodeRefs (escAttrChar c ++ rest) = c :: decodeRefs rest := by
+    decodeCharRefs (escAttrChar c ++ rest) = c :: decodeCharRefs rest := by
   unfold escAttrChar
   by_cases h1 : c = '&'
   · subst h1; simp [decodeRefs_amp]
@@ -73,9 +73,9 @@ theorem decode_escAttrChar (c : Char) (rest : Str) :
   simp [h1, h2, h3, h4, h5, h6, h7, decodeRefs_cons_ne c _ h1]
 
 /-- an escaped attribute value decodes to exactly the original characters -/
-theorem decode_escAttr (s : Str) : decodeRefs (s.flatMap escAttrChar) = s := by
+theorem decode_escAttr (s : Str) : decodeCharRefs (s.flatMap escAttrChar) = s := by
   induction s with
-  | nil => simp [decodeRefs]
+  | nil => simp [decodeCharRefs]
   | cons c cs ih => simp only [List.flatMap_cons, decode_escAttrChar, ih]
 
 /-! ### inertness -/
